@@ -551,4 +551,3 @@ func keysOf(m map[int64]bool) []int64 {
 	}
 	return out
 }
-
